@@ -402,7 +402,11 @@ def make_ignore(patterns, root):
     """is_ignored(abs_path, is_dir) using pathspec on the path RELATIVE to root (position independent forms only)"""
     import pathspec
 
-    spec = pathspec.PathSpec.from_lines("gitwildmatch", list(patterns))
+    # the last matching pattern decides; "the ascmhl folders themselves and .DS_Store are always excluded" (C12), so
+    # the default patterns are matched last and no negated user pattern can bring them back in
+    defaults = default_patterns()
+    ordered = [x for x in patterns if x not in defaults] + [x for x in patterns if x in defaults]
+    spec = pathspec.PathSpec.from_lines("gitwildmatch", ordered)
 
     def is_ignored(p, is_dir=False):
         rel = os.path.relpath(p, root)
